@@ -9,6 +9,7 @@ MODELS = {
     "syncxfer": [("sync/SyncXfer.tla", "sync/SyncXfer.cfg", "lock transfer under a most general client: 2 threads, 3 keys, 9 steps, all interleavings of claim / block / cycle / transfer (re-rooting, transfer-target unblock, edge rewrite, block on new owner) / re-entrant claim / release; ProtoInv, ClaimsConsistent"),
                  ("sync/SyncXfer.tla", "sync/SyncXferPanic.cfg", "same with panics (whole-stack unwinding, release_panicking, propagated panics)")],
     "pagealloc": [("alloc/PageAlloc.tla", "alloc/PageAlloc.cfg", "2 handles (dropped and re-created, <=2 drops), 2 ingredients, page capacity 2, 5 allocations, all schedules; IdsDistinct, UniqueWriter, PooledNotCached, SlotsInOrder")],
+    "fixpoint": [("cycle/MC_Fixpoint.tla", "cycle/MC_Fixpoint.cfg", "fixpoint iteration as implemented (provisional memos, per-head iteration stamps, nested heads, lock transfer to the outermost head, lazy finalization): ALL 2197 programs of 3 functions with <=2 callees x all orders of 2 top-level requests; every result is the least fixpoint whatever the entry point and whatever was requested before; NoBad (no implementation assertion fails, <= NF+1 iterations), FinalIsLfp, ProvBelowLfp, LocksQuiescent")],
     "cancel": [("cancel/Cancel.tla", "cancel/Cancel.cfg", "2 reader handles x 3 requests x 2 checks, 2 writes, local cancels; WriterExclusive, NoStaleProvisional, LocalOnlyOwn, TokenResetAtOutermost; liveness WriterEventuallyProceeds")],
 }
 
